@@ -197,6 +197,11 @@ func (x *Ex) genFuncsMore(body *LeanFile) {
 		{"internal/extractor", "ContentExtractor", "ExtractTitle"},
 		{"internal/extractor", "ContentExtractor", "ensureTitleInitialized"},
 	})
+	// the page-number finder's reading of one anchor and its walk over the neighbouring leaves
+	x.bodyGroup(body, "pageNumberBodies", []string{"C16", "C17"}, [][3]string{
+		{"internal/pagination", "PageNumberFinder", "getPageInfoAndText"},
+		{"internal/pagination", "PageNumberFinder", "findAndAddClosestValidLeafNodes"},
+	})
 	// reference resolution (Model/AbsURL.lean)
 	x.bodyGroup(body, "urlBodies", []string{"C06", "C16"}, [][3]string{
 		{"internal/stringutil", "", "CreateAbsoluteURL"},
